@@ -12,7 +12,7 @@ import ast
 from typing import Dict, List, Optional, Set, Tuple
 
 from ..core import AnalysisError, ClassInfo, FuncInfo, Repo, dotted
-from .. import au, pat
+from .. import au, pat, fde
 from .common import *  # noqa
 from .common import key_of, noreturn_set
 from . import protofacts as pf
@@ -93,7 +93,7 @@ def walkers_only_swap_targets(repo: Repo, R):
     from .common import isinstance_handled, union
     hs = isinstance_handled(repo, vt, subject="of")
     inst = set(union(repo, F_INSTANTIABLE, "InstantiableUnion"))
-    R.check(inst <= hs and au.raises(vt.node.body), rule, key_of(vt), vt.site, f"visit_instantiable dispatches over {sorted(hs)} ⊇ {sorted(inst)}; else raises", why="a target kind is dropped (None) by the walk")
+    R.check(inst <= hs and au.default_raises(vt.node.body), rule, key_of(vt), vt.site, f"visit_instantiable dispatches over {sorted(hs)} ⊇ {sorted(inst)}; else raises", why="a target kind is dropped (None) by the walk")
     for nm, arg in (("visit_external_module_call", "call"), ("visit_primitive_call", "call")):
         f = repo.func(F_WALKER, f"HierarchyWalker.{nm}")
         ok = ast.unparse(f.node.body[-1]) == f"return {arg}"
@@ -136,6 +136,10 @@ def port_compat(repo: Repo, R, m: pt.PdkModel, prims):
     R.note(f"{m.name}: tables {dict((k, len(v)) for k, v in m.tables.items())}; dispatch {m.dispatch}")
 
 
+def _body(fi):
+    return [st for st in fi.node.body if not (isinstance(st, ast.Expr) and isinstance(st.value, ast.Constant))]
+
+
 def selection(repo: Repo, R, m: pt.PdkModel):
     rule = "C15.3-selection-well-formed"
     noret = noreturn_set(repo)
@@ -152,13 +156,18 @@ def selection(repo: Repo, R, m: pt.PdkModel):
     if args is None:
         raise AnalysisError(f"idiom-unknown: selector tuple `args` in {mm.site}")
     sel_classes = []
+    from .c01 import branch_defs
+
     for e in args.elts:
-        x = au.expand(e, env, depth=2)
+        xs = [au.expand(e, env, depth=2)]
+        if isinstance(e, ast.Name) and e.id not in env:
+            xs = [v for v, _c in branch_defs(mm.node, e.id)]  # defined on both branches of an if/else (canonical conditional expression)
         cls = None
-        for n in ast.walk(x):
-            d = dotted(n) if isinstance(n, ast.Attribute) else None
-            if d and d.split(".")[-2:-1] and d.split(".")[-2] in ("MosType", "MosFamily", "MosVth"):
-                cls = d.split(".")[-2]
+        for x in xs:
+            for n in ast.walk(x):
+                d = dotted(n) if isinstance(n, ast.Attribute) else None
+                if d and d.split(".")[-2:-1] and d.split(".")[-2] in ("MosType", "MosFamily", "MosVth"):
+                    cls = d.split(".")[-2]
         sel_classes.append(cls)
     key_classes = [sorted({el.split(".")[0] for el in e.key_elems if "." in el and el.split(".")[0] in ("MosType", "MosFamily", "MosVth")}) for e in m.tables["xtors"]]
     bad = [e.key for e, kc in zip(m.tables["xtors"], key_classes) if not set(c for c in sel_classes if c) <= set(kc)]
@@ -172,24 +181,26 @@ def selection(repo: Repo, R, m: pt.PdkModel):
             inner = [n for n in lp.body if isinstance(n, ast.For)]
             if inner and ast.unparse(inner[0].iter) == "args":
                 i = inner[0]
-                brk = len(i.body) == 1 and isinstance(i.body[0], ast.If) and ast.unparse(i.body[0].test) == f"{ast.unparse(i.target)} not in {ast.unparse(lp.target.elts[0])}" and isinstance(i.body[0].body[-1], ast.Break)
+                brk = len(i.body) == 1 and isinstance(i.body[0], ast.If) and ast.unparse(i.body[0].test) == f"{ast.unparse(i.target)} in {ast.unparse(lp.target.elts[0])}" and not [x for x in i.body[0].body if not isinstance(x, ast.Pass)] and len(i.body[0].orelse) == 1 and isinstance(i.body[0].orelse[0], ast.Break)
                 els = len(i.orelse) == 1 and ast.unparse(i.orelse[0]) == "match = True"
                 init = any(ast.unparse(s) == "match = False" for s in lp.body)
                 use = any(isinstance(s, ast.If) and ast.unparse(s.test) == "match" and bool(pat.find("subset[$K] = $V", s)) for s in lp.body)
                 loop_ok = brk and els and init and use
+    if not loop_ok:
+        # the same selection as a comprehension: {k: v for k, v in xtors.items() if all(a in k for a in args)}
+        for c, b in pat.find("{$K: $V for $K, $V in xtors.items() if all(($A in $K for $A in args))}", mm.node):
+            loop_ok = True
     R.check(loop_ok, rule, f"pdks/{m.name}::mos_module::match-loop", mm.site, f"{m.name}: an entry is selected iff every selector value is in its key (for/else): {loop_ok}", why="devices that miss one selector are selected (or matching ones are not)")
     # miss -> RuntimeError before next(iter())
     nx = pat.find("next(iter(subset.values()))", mm.node)
-    guard = None
-    for n in au.walk_no_nested(mm.node):
-        if isinstance(n, ast.If) and ast.unparse(n.test) in ("not subset", "len(subset) == 0", "len(subset) < 1") and au.raises(n.body, noret):
-            guard = n
-    ok = (not nx) or (guard is not None and guard.lineno < nx[0][0].lineno)
+    from . import shared
+
+    ok = (not nx) or any(isinstance(n, ast.If) and ast.unparse(n.test) in ("subset", "len(subset)", "0 < len(subset)") and au.raises(n.orelse, noret) and any(t is n.test and pol for t, pol in path_conditions(mm.node, nx[0][0])) for n in au.walk_no_nested(mm.node))
     R.check(ok, rule, f"pdks/{m.name}::mos_module::no-match-raises", mm.site,
             f"{m.name}: a request no device satisfies raises a descriptive error before the first match is taken: {ok}" if ok else f"{m.name}: `next(iter(subset.values()))` is reached with an empty subset: StopIteration instead of a descriptive error",
             why="a request no device satisfies raises a bare StopIteration (swallowed by enclosing generators/for-loops)")
     # model-name branch
-    mdl = any(isinstance(n, ast.If) and ast.unparse(n.test) == "params.model is not None" and any(isinstance(x, ast.Try) for x in n.body) for n in au.walk_no_nested(mm.node))
+    mdl = any(isinstance(n, ast.If) and ast.unparse(n.test) == "params.model is None" and any(isinstance(x, ast.Try) and any(au.raises(h.body, noret) for h in x.handlers) for x in n.orelse) for n in au.walk_no_nested(mm.node))
     R.check(mdl, rule, f"pdks/{m.name}::mos_module::by-model", mm.site, f"{m.name}: selection by model name looks the name up in the keys and raises a RuntimeError on a miss: {mdl}", why="an unknown model name raises IndexError")
     # dict-keyed tables: miss -> RuntimeError
     for meth, t in sorted(m.method_table.items()):
@@ -198,8 +209,8 @@ def selection(repo: Repo, R, m: pt.PdkModel):
         helper = w.methods.get(meth.replace("_call", ""))
         if helper is None:
             continue
-        get = bool(pat.find(f"{t}.get(params.model, None)", helper.node))
-        miss = any(isinstance(n, ast.If) and ast.unparse(n.test) == "mod is None" and au.raises(n.body, noret) for n in au.walk_no_nested(helper.node))
+        get = bool(pat.find(f"{t}.get(params.model)", helper.node))
+        miss = any(isinstance(n, ast.If) and pat.match("$M is None", n.test) is not None and shared.prov_text(helper.node, n.test.left) == f"{t}.get(params.model)" and au.raises(n.body, noret) for n in au.walk_no_nested(helper.node))
         R.check(get and miss, rule, f"pdks/{m.name}::{helper.name}", helper.site, f"{m.name}.{helper.name}: looks `params.model` up in `{t}` ({get}) and raises a descriptive error on a miss ({miss})", why="an unknown model name compiles to None or raises KeyError")
 
 
@@ -277,20 +288,21 @@ def caches(repo: Repo, R, m: pt.PdkModel):
     w = m.walker
     for meth in sorted(set(m.dispatch.values())):
         f = w.methods[meth]
+        from . import shared
+
+        rets = shared.returns_of(f.node)
         reads = set()
-        for n in au.walk_no_nested(f.node):
-            if isinstance(n, ast.If):
-                mm = pat.match("params in CACHE.$_", n.test) if False else None
-                if isinstance(n.test, ast.Compare) and isinstance(n.test.ops[0], ast.In) and ast.unparse(n.test.left) == "params" and ast.unparse(n.test.comparators[0]).startswith("CACHE."):
-                    c = ast.unparse(n.test.comparators[0])
-                    ret = n.body[-1]
-                    if isinstance(ret, ast.Return) and ast.unparse(ret.value) == f"{c}[params]":
-                        reads.add(c)
-                    else:
-                        reads.add(c + "?")
-        writes = {ast.unparse(st.targets[0].value) for st in au.stmts(f.node) if isinstance(st, ast.Assign) and isinstance(st.targets[0], ast.Subscript) and ast.unparse(st.targets[0].value).startswith("CACHE.") and ast.unparse(st.targets[0].slice) == "params" and ast.unparse(st.value) == "modcall"}
-        ret_ok = isinstance(f.node.body[-1], ast.Return) and ast.unparse(f.node.body[-1].value) == "modcall"
-        call_ok = bool(pat.find("modcall = mod(modparams)", f.node))
+        for r in rets:
+            mt = pat.match("CACHE.$C[params]", r.value) if False else None
+            if isinstance(r.value, ast.Subscript) and ast.unparse(r.value.slice) == "params" and ast.unparse(r.value.value).startswith("CACHE."):
+                c = ast.unparse(r.value.value)
+                reads.add(c if shared.cond_match(f.node, r, f"params in {c}", True, use_prov=False) else c + "?")
+        wst = [st for st in au.stmts(f.node) if isinstance(st, ast.Assign) and isinstance(st.targets[0], ast.Subscript) and ast.unparse(st.targets[0].value).startswith("CACHE.") and ast.unparse(st.targets[0].slice) == "params"]
+        writes = {ast.unparse(st.targets[0].value) for st in wst}
+        # what is stored is what is returned on a miss, and it is the device called with the parameters built here
+        miss_rets = [r for r in rets if not isinstance(r.value, ast.Subscript)]
+        ret_ok = len(wst) == 1 and len(miss_rets) == 1 and shared.prov_text(f.node, miss_rets[0].value, depth=1) == shared.prov_text(f.node, wst[0].value, depth=1)
+        call_ok = len(wst) == 1 and pat.match("$MOD($P)", shared.prov(f.node, wst[0].value, depth=1)) is not None
         ok = len(reads) == 1 and reads == writes and ret_ok and call_ok
         R.check(ok, rule, f"pdks/{m.name}::{meth}", f.site, f"{m.name}.{meth}: reads {sorted(reads)} and writes {sorted(writes)}, keyed by the whole parameter object; returns the (cached) call: {ret_ok and call_ok}",
                 why="equal primitive parameters give different device calls (or another device class's call is returned)")
@@ -353,14 +365,24 @@ def small_pdks(repo: Repo, R, prims):
     ok = bool(pat.find("_mos_modules.get((params.tp, params.vth), None)", mm.node)) and any(isinstance(n, ast.If) and ast.unparse(n.test) == "mod is None" and au.raises(n.body) for n in au.walk_no_nested(mm.node))
     R.check(ok, "C15.3-selection-well-formed", key_of(mm), mm.site, f"ASAP7: device looked up by (type, threshold); a miss raises: {ok}", why="unknown combination compiles to None")
     sm = repo.func(F_SAMPLE, "SamplePdkWalker.mos_module")
-    ok = any(isinstance(n, ast.If) and ast.unparse(n.test) == "params.tp == MosType.PMOS" and ast.unparse(n.body[-1]) == "return Pmos" for n in au.walk_no_nested(sm.node)) and ast.unparse(sm.node.body[-1]) == "return Nmos"
+    from .. import fde
+    from . import shared
+
+    try:
+        tab = fde.decision_table(_body(sm), [("pmos", lambda t: ast.unparse(t) in ("params.tp == MosType.PMOS", "MosType.PMOS == params.tp"))], ["<return>"], lambda v: ast.unparse(v), tolerant=True)
+        ok = tab[(True,)]["<return>"] == "Pmos" and tab[(False,)]["<return>"] == "Nmos"
+    except fde.Unknown:
+        ok = False
     R.check(ok, "C15.3-selection-well-formed", key_of(sm), sm.site, f"sample PDK: PMOS -> Pmos, otherwise Nmos: {ok}", why="NMOS and PMOS are exchanged")
     sp = repo.func(F_SAMPLE, "SamplePdkWalker.mos_params")
     want = {"w": "params.w or 1 * µ", "l": "params.l or 1 * µ", "m": "params.mult or 1", "nf": "params.nf or 1"}
-    defs = au.local_defs(sp.node)
     import unicodedata
     nf = lambda x: unicodedata.normalize("NFKC", x)  # identifiers are NFKC-normalised by the parser (µ -> μ)
-    ok = all(nf(ast.unparse(defs.get(k, ast.Constant(None)))) == nf(v) for k, v in want.items()) and bool(pat.find("SamplePdkMosParams(w=w, l=l, m=m, nf=nf)", sp.node))
+    srets = shared.returns_of(sp.node)
+    ok = False
+    if len(srets) == 1:
+        rv = shared.prov(sp.node, srets[0].value)
+        ok = isinstance(rv, ast.Call) and ast.unparse(rv.func) == "SamplePdkMosParams" and not rv.args and {k.arg: nf(ast.unparse(k.value)) for k in rv.keywords} == {k: nf(v) for k, v in want.items()}
     R.check(ok, "C15.3-selection-well-formed", key_of(sp), sp.site, f"sample PDK: given sizes or the defaults, each passed to the parameter of the same meaning: {ok}", why="width/length or multiplier/fingers are exchanged")
 
 
@@ -386,19 +408,27 @@ def registry(repo: Repo, R):
             t = ast.unparse(x.test)
             if t == "pdk is None" and bool(pat.find("pdk = default()", x)):
                 arms["None"] = True
-            if t == "isinstance(pdk, str)" and bool(pat.find("pdk = _mgr.names.get(pdk, None)", x)):
+            if t == "isinstance(pdk, str)" and bool(pat.find("pdk = _mgr.names.get(pdk)", x)):
                 arms["str"] = True
             if t == "isinstance(pdk, ModuleType)":
                 calls = [c for c in au.calls_in(ast.Module(x.body, []))]
                 arms["module"] = any(isinstance(repo.resolve_call(c, fc), FuncInfo) and repo.resolve_call(c, fc).name == "register" for c in calls)
-    last = fc.node.body[-1]
-    run = isinstance(last, ast.Return) and ast.unparse(last.value) == "pdk.compile(src)"
+    crets = shared.returns_of(fc.node)
+    run = len(crets) == 1 and ast.unparse(crets[0].value) == "pdk.compile(src)" and shared.cond_match(fc.node, crets[0], "pdk is None", False, use_prov=False)
     R.check(all(arms.values()) and run, rule, key_of(fc), fc.site, f"compile(): PDK by default / by name / by module: {arms}; then runs that PDK's compile on the source: {run}", why="one of the three documented ways of naming the PDK fails")
     fr = repo.func(F_PDK, "register")
     ok = bool(pat.find("_mgr.modules.add(module)", fr.node)) and bool(pat.find("_mgr.names[module.__name__] = module", fr.node))
     R.check(ok, rule, key_of(fr), fr.site, f"register() records the module in the set and under its name: {ok}", why="a registered PDK cannot be found by name")
     fd = repo.func(F_PDK, "default")
-    ok = any(isinstance(x, ast.If) and ast.unparse(x.test) == "len(_mgr.modules) == 1" for x in au.walk_no_nested(fd.node)) and any(isinstance(x, ast.If) and ast.unparse(x.test) == "_mgr.default is not None" and ast.unparse(x.body[-1]) == "return _mgr.default" for x in au.walk_no_nested(fd.node))
+    try:
+        def m_d(t):
+            s_ = ast.unparse(t)
+            return True if s_ == "_mgr.default is None" else ("neg" if s_ == "_mgr.default is not None" else False)
+
+        tab = fde.decision_table(_body(fd), [("nodefault", m_d), ("one", lambda t: ast.unparse(t) in ("len(_mgr.modules) == 1", "1 == len(_mgr.modules)"))], ["<return>"], lambda v: ast.unparse(v), tolerant=True)
+        ok = tab[(False, False)]["<return>"] == tab[(False, True)]["<return>"] == "_mgr.default" and tab[(True, True)]["<return>"] == "next(iter(_mgr.modules))" and tab[(True, False)]["<return>"] in ("None", "<unset>")
+    except fde.Unknown:
+        ok = False
     R.check(ok, rule, key_of(fd), fd.site, f"default(): the explicit default, else the only registered PDK, else None: {ok}", why="with several PDKs registered an arbitrary (hash-ordered) one is used")
 
 
